@@ -69,7 +69,8 @@ def check_container(b, c, key, rng):
         rel = F(1, 10 ** 9)
         if den == 'L' and top != 0:
             # the library divides by get_volume('L'): the volume rounded to p decimals *in litres*
-            rel += (_round_tol(u.p) + tolv) / bottom if bottom > 0 else 1
+            x = (_round_tol(u.p) + tolv) / bottom if bottom > 0 else F(1)
+            rel += x * F(11, 10) + 2 * x * x
         else:
             rel += W.slack_total(mv, den) * 20 / bottom if bottom > 0 else 0
         rel += (20 * W.q_amt(sname) / mv.contents[sname]) if mv.contents.get(sname, 0) > 0 else 0
